@@ -132,8 +132,10 @@ func H10_echo() {
 		_, _ = env.h.ServeDNSWithRCODE(context.Background(), w, q)
 		nd.Assert(len(w.written) == 1, "one-reply")
 
-		// recorded finding: REFUSED replies are built without the client-subnet option
-		nd.Known("C10-refused-no-ecs", w.written[0].Rcode == dns.RcodeRefused)
+		// recorded finding, as narrow as what was observed: a REFUSED reply carries exactly one OPT
+		// record and that OPT has no option at all (any other shape of a REFUSED reply is judged)
+		ro, rn := verifFindOPT(w.written[0])
+		nd.Known("C10-refused-no-ecs", w.written[0].Rcode == dns.RcodeRefused && rn == 1 && len(ro.Option) == 0)
 		tag := "uncached"
 		if r == 1 {
 			tag = "cached"
